@@ -444,6 +444,11 @@ fn main() {
                 c.opt.padding = Some(pad);
                 c.opt.seek = Some(sk.to_string());
                 c.script = vec![100 * 2];
+                if pad.map_or(false, |p| p >= (1 << 20) && p < (1 << 24)) {
+                    // a 16 MiB padding block: constructor only (the model builds the region as a list)
+                    c.script = vec![];
+                    c.finalize = false;
+                }
                 run_case(&mut cx, &c, seed);
             }
         }
@@ -546,6 +551,8 @@ fn main() {
         let c = Case { kind, opt, rate, bps, ch, total, script, pcm_kind: PCM_KINDS[rng.below(PCM_KINDS.len() as u64) as usize], finalize: true };
         // skip scripts on invalid bit depths / channel counts (no data can be generated for them)
         let c = if (1..=32).contains(&c.bps) && (1..=8).contains(&c.ch) { c } else { Case { script: vec![], ..c } };
+        let bigpad = matches!(c.opt.padding, Some(Some(p)) if p >= (1 << 20) && p < (1 << 24));
+        let c = if bigpad { Case { script: vec![], finalize: false, ..c } } else { c };
         run_case(&mut cx, &c, seed);
     }
 
